@@ -287,6 +287,11 @@ func Run(o *corr.Out) {
 					return fmt.Sprintf("u!%d", t)
 				}
 			}
+			if len(w.mparked) > 0 && o.Rand.Intn(3) == 0 {
+				for t := range w.mparked {
+					return fmt.Sprintf("m!%d", t)
+				}
+			}
 			for try := 0; try < 30; try++ {
 				call := randCall(o, sc)
 				if call == "recv" && o.Rand.Intn(3) == 0 {
@@ -295,9 +300,15 @@ func Run(o *corr.Out) {
 				if call == "recvf" && o.Rand.Intn(2) == 0 {
 					call = "recvpf"
 				}
+				if strings.HasPrefix(call, "send:") && o.Rand.Intn(4) == 0 {
+					call = "sendp:" + call[5:]
+				}
 				cls := callClass(call)
 				if strings.HasPrefix(cls, "recv") {
 					cls = "recv"
+				}
+				if cls == "sendp" {
+					cls = "send"
 				}
 				if strings.HasPrefix(call, "pkt:") {
 					if strings.HasPrefix(call, "pkt:2:") {
